@@ -5,20 +5,20 @@ import os
 VERIF = os.path.dirname(os.path.dirname(os.path.abspath(__file__)))
 
 TB = ("Trusted: Lean 4.33 kernel + propext/Classical.choice/Quot.sound (audited on every run, no sorry/native_decide/own axioms); "
-      "the Spec (lean/TinyFlux/Spec) as the formal reading of the property; tools/py2lean and lean/TinyFlux/Py; "
+      "the Spec (lean/TinyFlux/Spec) as the formal reading of the property; tools/py2lean (function, table and class mode) and lean/TinyFlux/Py (Basic, Typed); "
       "the correspondence harness and the assumption it samples (the hand-written Model behaves like the code on inputs it did not run). ")
 
 CHECKS = {
     "C01": dict(
-        text="Refinement theorem proved in Lean 4 for every history, query and measurement filter: the model of database.py/index.py (index path, scan path, shortcuts) returns exactly Spec.search/count/contains/get/select of the stored contents; sorted results are a stable time sort, unsorted ones a sublist of storage. The model is tied to the code by generated definitions (find_*) and by differential runs of histories in the four configurations.",
+        text="Refinement theorem proved in Lean 4 for every history, query and measurement filter: the model of database.py/index.py (index path, scan path, shortcuts) returns exactly Spec.search/count/contains/get/select of the stored contents; sorted results are a stable time sort, unsorted ones a sublist of storage. The model is tied to the code by generated definitions (find_*, and the class Index translated method by method: the translated leaf searches return the Model's sets, Props/C01Mirror.lean) and by differential runs of histories in the four configurations.",
         note=TB + "Guard: measurement filter != '' (known finding). Stored points assumed Good (dict-shaped, unchanged by the storage codec — C05). float timestamps modelled as integer microseconds (order embedding on 1700-2240, C08).",
-        tech="Lean 4 refinement proof (index/database model -> list spec) + history-level differential correspondence", ref="DESIGN.md 5/C01"),
+        tech="Lean 4 refinement proof (index/database model -> list spec), mirror theorems over index.py translated into Lean on every run + history-level differential correspondence", ref="DESIGN.md 5/C01"),
     "C02": dict(
-        text="Proved in Lean 4: remove/drop_measurement/remove_all leave exactly the non-selected points (a sublist of storage, unmodified, in order), return the number selected, a removal matching nothing is the identity, and the index invariant is preserved so all later operations are covered by C01/C07. Tied to the code by differential runs of histories.",
+        text="Proved in Lean 4: remove/drop_measurement/remove_all leave exactly the non-selected points (a sublist of storage, unmodified, in order), return the number selected, a removal matching nothing is the identity, and the index invariant is preserved so all later operations are covered by C01/C07. Tied to the code by translation (TinyFlux._remove_helper, _reset_database and Index.remove/update translated statement by statement on every run and proved to be the Model's removeHelper: Mirror/Database.lean, Props/C02Mirror.lean) and by differential runs of histories.",
         note=TB + "Guard: measurement argument != '' (known finding). List level; the file level is C04/C12.",
         tech="Lean 4 refinement proof + history-level differential correspondence", ref="DESIGN.md 5/C02"),
     "C03": dict(
-        text="Proved in Lean 4: update/update_all change exactly the selected points according to Spec.upd (replace time/measurement, merge tags/fields key by key, unset afterwards), never move or drop points, count the points whose content changed, and preserve the invariant; merge lemmas (never drops keys, unset after set) proved on the Spec. Tied to the code by differential runs with static and callable arguments.",
+        text="Proved in Lean 4: update/update_all change exactly the selected points according to Spec.upd (replace time/measurement, merge tags/fields key by key, unset afterwards), never move or drop points, count the points whose content changed, and preserve the invariant; merge lemmas (never drops keys, unset after set) proved on the Spec. Tied to the code by differential runs with static and callable arguments; the index rebuild that ends a changing update is proved over the translated Index.build (Props/C03Mirror.lean).",
         note=TB + "Guard: measurement argument != '' (known finding); what the update produces must be storable (OpOK). User callables are arbitrary Lean functions in the theorems and a finite vocabulary in the runs.",
         tech="Lean 4 refinement proof + history-level differential correspondence", ref="DESIGN.md 5/C03"),
     "C04": dict(
@@ -46,12 +46,12 @@ CHECKS = {
         note=TB + "str(float)/float(), isoformat/fromisoformat, the csv module and text codecs are parameters with stated laws (trusted stdlib behaviour), supplied to the model as tables computed by the real stdlib.",
         tech="Lean 4 proof over extracted constants + differential codec correspondence", ref="DESIGN.md 5/C05"),
     "C06": dict(
-        text="Invariant proved in Lean 4 by induction over all histories (incl. raising operations, reopen): a valid index represents the current storage; a rebuilt index represents it too and every answer is a function of what is represented, hence equal. In-order insert keeps validity, out-of-order insert only invalidates, reads leave a valid index untouched. Tied to the code by histories with ~40 direct index probes compared with a rebuilt index after every operation.",
+        text="Invariant proved in Lean 4 by induction over all histories (incl. raising operations, reopen): a valid index represents the current storage; a rebuilt index represents it too and every answer is a function of what is represented, hence equal. In-order insert keeps validity, out-of-order insert only invalidates, reads leave a valid index untouched. Tied to the code by translation — build / insert / remove / update / _reset / invalidate of index.py are translated statement by statement into Lean on every run (Generated/IndexImpl.lean) and proved never to raise and to keep the index equal to the index of the stored points (Props/C06Mirror.lean over Mirror/*) — and by histories with ~40 direct index probes compared with a rebuilt index after every operation.",
         note=TB + "Index maps flattened in the model (invisible in answers); answers compared, not attribute dumps.",
-        tech="Lean 4 invariant proof (Represents/Inv) + index-probe differential correspondence", ref="DESIGN.md 5/C06"),
+        tech="Lean 4 invariant proof (Represents/Inv) over the hand model and over index.py translated into Lean on every run + index-probe differential correspondence", ref="DESIGN.md 5/C06"),
     "C07": dict(
-        text="Proved in Lean 4: every getter, len, iteration, all() and the Measurement-local twins return the Spec one-liner over the stored contents on the index path and on the scan path. Tied to the code by differential runs of histories.",
-        note=TB + "Guard: measurement argument != '' (known finding). CSV record counting is checked at the file level (C04).",
+        text="Proved in Lean 4: every getter, len, iteration, all() and the Measurement-local twins return the Spec one-liner over the stored contents on the index path and on the scan path. Tied to the code by translation (the six getters of index.py translated on every run are proved equal to the Model's getters on every state the translated maintenance methods produce, Props/C07Mirror.lean) and by differential runs of histories.",
+        note=TB + "Guard: measurement argument != '' (known finding). CSV record counting is checked at the file level (C04). Recorded finding: a storage read nested in an iteration over CSV storage cuts the iteration short (one shared file handle).",
         tech="Lean 4 refinement proof + history-level differential correspondence", ref="DESIGN.md 5/C07"),
     "C08": dict(
         text="Proved in Lean 4: normalising to UTC keeps the instant, so the stored value depends on the instant only; a time comparison in a query is the integer comparison of instants at microsecond resolution; any rounding of microsecond instants to a grid of >= 2^20 ticks per second is strictly monotone and invertible (so comparisons and conversions through the index's float keys agree with the instants — that binary64 is such a grid for 1700-2240 is the trusted IEEE fact); sorted results are a stable sort; an updated time is the instant the argument denotes. The real code is run in a subprocess per process time zone {UTC, America/Los_Angeles, Australia/Lord_Howe, Asia/Kathmandu} on instants at range ends, epoch, 2038, 2106, DST transitions, adjacent microseconds and ties, presented in many offsets or as naive local time, through insert / update static+callable / reopen / time queries / get_timestamps on both paths, against the instant-only Model and Spec; naive values in DST gaps and folds against zoneinfo.",
